@@ -30,7 +30,7 @@ const char *target_name = "mt";
 enum { L_SWITCH_IN_POST, L_SWITCH_OWNER_DETACH, L_CROSS_POST, L_SELF_POST, L_POST_FROM_HANDLER, L_UNREG_PENDING, L_TWO_OWNERS, L_POOL,
        L_SUBMIT_ALL_BUSY, L_SUBMIT_IDLE_EXPIRED, L_SUBMIT_BEFORE_FIRST_RUN, L_CONTINUATION, L_PUT_WHILE_BUSY, L_PUT_WHILE_STARTING, L_PUT_WHILE_IDLE,
        L_IDLE_TIMEOUT_DEATH, L_IVTHREAD, L_IVTHREAD_NODEINIT, L_IVTHREAD_PEXIT, L_M0, L_M1, L_M2, L_M3, L_RAW_KICK, L_EVENTFD_FALLBACK,
-       L_FD_UNREG_IN_EVENT, L_POOL_REUSE, L_SUBMIT_FROM_COMPLETION, L_TIME_PASSED_10S, L_BURST, L_RAW_CROSS_POST, L_RAW_BIG_BURST, L_LOCAL_WORK, L_PUT_FROM_COMPLETION };
+       L_FD_UNREG_IN_EVENT, L_POOL_REUSE, L_SUBMIT_FROM_COMPLETION, L_TIME_PASSED_10S, L_BURST, L_RAW_CROSS_POST, L_RAW_BIG_BURST, L_LOCAL_WORK, L_PUT_FROM_COMPLETION, L_IVTHREAD_CREATE_FAILS };
 
 #define FAILP(prop, tag, ...) vz_fail(prop, tag, __VA_ARGS__)
 static void fail_any(const char *tag, const char *fmt, ...)
@@ -89,6 +89,8 @@ struct item { struct iv_work_item w; int id, submitted, work_runs, comp_runs, wo
 static struct item items[MAXITEM]; static int nitems;
 static struct iv_work_pool *pool; static int pool_alive, pool_put_called, pool_max, pool_generation;
 static int running_now, max_running_seen;
+static int harness_threads;          /* threads created by the harness itself or through iv_thread_create by the harness */
+static int pool_threads_requested;  /* pool threads the library has created so far (counted at thread creation) */
 static int cont_inflight;          /* workers currently inside iv_work_pool_submit_continuation (uses the pool struct) */
 static int start_count[SCHED_MAXT], stop_count[SCHED_MAXT];
 static int worker_slots[SCHED_MAXT], nworkers;
@@ -270,6 +272,8 @@ static void pool_put(void)
 	for (int i = 0; i < nworkers; i++) { int s = worker_slots[i]; if (start_count[s] && !stop_count[s]) idle++; }
 	for (int s = 0; s < sched_nthreads(); s++) if (!start_count[s] && !sched_thread_finished(s) && s != own[0].slot) starting++;
 	if (busy) vz_label(L_PUT_WHILE_BUSY); else if (idle) vz_label(L_PUT_WHILE_IDLE);
+	pool_threads_requested = sched_nthreads() - 1 - harness_threads;
+	if (pool_threads_requested > nworkers) vz_label(L_PUT_WHILE_STARTING);    /* a pool thread was created but has not run its start hook yet */
 	(void)starting;
 	vz_log("[T%d] pool put (running=%d)", sched_self(), running_now);
 	vz_hash_u(0x300);
@@ -326,6 +330,7 @@ static void comp_fn(void *cookie)
 	vz_log("[T%d] completion item %d", me, it->id);
 	if (++it->comp_runs != 1) FAILP("C12", "completion-twice", "completion of item %d ran %d times", it->id, it->comp_runs);
 	if (me != own[0].slot) FAILP("C12", "completion-thread", "completion of item %d ran in T%d, owner is T%d", it->id, me, own[0].slot);
+	sched_point("completion");      /* completions take time: workers may finish more items, or exit, meanwhile */
 	if (it->work_runs != 1 || !it->work_returned) FAILP("C12", "completion-before-work", "completion of item %d ran before its work function returned", it->id);
 	if (pool_alive && !pool_put_called) {
 		unsigned c = ch_n(8);
@@ -359,7 +364,10 @@ static void create_child(void)
 	c->mode = ch_n(5); c->slot = sched_nthreads();
 	vz_hash_u(0x500 + c->mode);
 	vz_label(L_IVTHREAD);
-	if (iv_thread_create("child", child_fn, c) == 0) { c->created = 1; nchildren++; }
+	if (ch_n(6) == 0) { sched_fail_next_create = 1; vz_label(L_IVTHREAD_CREATE_FAILS); }     /* out of threads: the helper must report failure and leave the loop as it was */
+	int r = iv_thread_create("child", child_fn, c);
+	if (sched_fail_next_create) { sched_fail_next_create = 0; if (r == 0) fail_any("thread-create-fault-ignored", "pthread_create failed but iv_thread_create reported success"); }
+	if (r == 0) { c->created = 1; nchildren++; harness_threads++; }
 }
 
 /* ------------------------------------------------------------------ owner programs */
@@ -615,7 +623,7 @@ void target_run(void)
 	if (pool_max) { pool_create(); int n = ch_n(4); for (int k = 0; k < n; k++) submit_item(-1, 0); if (n && !start_count[0]) vz_label(L_SUBMIT_BEFORE_FIRST_RUN); }
 	if (pool_max && (want_pool || ch_n(2))) { arm_act_timer(o); if (ch_n(2)) arm_act_timer(o); }
 	if (ch_n(3) == 0) create_child();
-	if (nown > 1) sched_spawn(owner1_main, &own[1]);
+	if (nown > 1) { sched_spawn(owner1_main, &own[1]); harness_threads++; }
 	/* owner1 must have registered its shared events before anyone posts to them */
 	while (nown > 1 && !own[1].ev[2].registered) sched_yield_to_others("wait-owner1");
 	for (int p = 0; p < nposters; p++) {
@@ -626,7 +634,7 @@ void target_run(void)
 			ps->ops[k].n = (unsigned short[]){ 1, 2, 7, 1023, 1024, 1025, 4096, 65535 }[ch_n(8)];
 			vz_hash_u(0x700 + ps->ops[k].op * 4 + ps->ops[k].a * 2 + ps->ops[k].b);
 		}
-		sched_spawn(poster_main, ps);
+		sched_spawn(poster_main, ps); harness_threads++;
 	}
 	owner_actions(o, 3);
 	o->in_main = 1;
